@@ -7,7 +7,7 @@ Require Import QzParser.ParserModel QzParser.Props.C07.
 Open Scope Z_scope.
 
 Theorem C14_never_skips_fresh_parsed : forall (s : bytes) f z prev t,
-  parse_trigger s = Ok f -> wf_zone z = true -> 0 <= prev <= max_nanos ->
+  parse_trigger s = Ok f -> wf_zone z = true -> min_nanos <= prev <= max_nanos ->
   prev < t <= max_nanos -> t mod nanos = 0 -> matches_at f z t -> ~ is_repeat z t ->
   exists ns, next_fire_time_zone f z prev = Fire ns /\ ns <= t.
 Proof. intros s f z prev t Hp. exact (C14_never_skips_fresh f z prev t (parse_trigger_ok_wf s f Hp)). Qed.
